@@ -27,7 +27,7 @@ EIx(c) == c.d * 3 + c.m * 5 + c.seed * 7 + Len(c.basis) * 11 + Len(c.basis[1]) *
 EInit == cfg \in {c \in EConfigs : EIx(c) % NShards = Shard} /\ out = <<>>
 EBuild ==
     /\ out = <<>>
-    /\ LET x == [i \in 1..cfg.d |-> [j \in 1..cfg.m |-> ((cfg.seed * 11 + i * 5 + j * 3 + i * j * j) % 7) - 3]]
+    /\ LET x == [i \in 1..cfg.d |-> [j \in 1..cfg.m |-> (((cfg.seed + SaltValue) * 11 + i * 5 + j * 3 + i * j * j) % 7) - 3]]
        IN  out' = <<[x |-> x, leaves |-> LeavesGeneral(x, cfg.basis), pairs |-> SubSeq(Pairs(cfg.m), 1, cfg.npairs)]>>
     /\ UNCHANGED cfg
 ENext == EBuild
